@@ -252,12 +252,19 @@ def apply_reference(fn, ref):
     """ref: [[name, signature, ordinal], ...] of the same function in the reference tree.  Renames (in place) every
     local whose (signature, ordinal) equals a reference entry with another spelling.  Returns {new: old}."""
     cur = local_signatures(fn)
-    want = {(sig, k): name for name, sig, k in ref}
-    mp = {}
+    by_sig_ref, by_sig_cur = {}, {}
+    for name, sig, k in ref:
+        by_sig_ref.setdefault(sig, []).append(name)
     for name, sig, k in cur:
-        tgt = want.get((sig, k))
-        if tgt and tgt != name:
-            mp[name] = tgt
+        by_sig_cur.setdefault(sig, []).append(name)
+    mp = {}
+    for sig, cnames in by_sig_cur.items():
+        rnames = by_sig_ref.get(sig, [])
+        # locals that already carry a reference spelling of this signature stay; the others are matched in order
+        left_cur = [c for c in cnames if c not in rnames]
+        left_ref = [r for r in rnames if r not in cnames]
+        for c, r in zip(left_cur, left_ref):
+            mp[c] = r
     if not mp:
         return {}
     params = _params(fn)
